@@ -299,13 +299,16 @@ PHYS = [
     ("print *, '!'; call noargs ! 'x'; x = bar(1)", ["noargs"]),
     ("print *, 'a' // \"b;\" // 'c''' ; call foo(y)", ["foo"]),
     ("x = bar( &", ["bar", "baz"]),   # continued over the next line (see _phys_lines)
+    ("call &", ["foo"]),              # the blank before `&` is the only separator: continued by `&foo(x); ...`
+    ("if (chk(x)) call   &", ["chk", "foo"]),
 ]
 CONT_TAIL = "        baz(y)); call noargs ! done"
+CONT_TAIL_CALL = "&foo(x); call noargs ! done"
 
 
 def _phys_lines(a, b):
     """two physical lines (b may be the head of a continuation whose tail is fixed)"""
-    tail = choice.apply(lambda t: CONT_TAIL if t.endswith("&") else "continue", b)
+    tail = choice.apply(lambda t: (CONT_TAIL_CALL if "call" in t else CONT_TAIL) if t.endswith("&") else "continue", b)
     return [a, b, tail]
 
 
@@ -342,7 +345,7 @@ def calls_phys(ctx):
     ctx.stubs.append("the stream of the caller's file is the list of symbolic physical lines; the other file is a statement list")
 
     def h(E):
-        a = CV.choice(E, "l1", PHYS[:-1])
+        a = CV.choice(E, "l1", [x for x in PHYS if not x[0].endswith("&")])
         b = CV.choice(E, "l2", PHYS)
         lines = _phys_lines(a[0], b[0])
         want = choice.apply(_phys_expected, a[1], b[1], b[0])
